@@ -15,7 +15,7 @@ def git(repo: str, *a: str) -> str:
 
 def main() -> None:
     rows = []
-    for line in Path(sys.argv[1]).read_text().splitlines():
+    for line in Path(sys.argv[1]).read_text(errors="replace").splitlines():
         if not line.startswith("| C"):
             continue
         cells = [c.strip() for c in line.strip().strip("|").split("|")]
